@@ -89,6 +89,39 @@ def choose_fresh(rng, S):
     return rng.randint(0, now - 1) + 0.5
 
 
+def c09_check_failed_run(S, exp):
+    """The ordering clauses of C09 on a run that FAILED but was allowed to go on (max_errors): whatever started in it started only after
+    the rebuilt values it consumes were written and read back / after the write of those it merely depends on. A value whose write never
+    completed releases nothing."""
+    H, ir, rp = S.H, S.ir, S.rp
+    first, last = {}, {}
+    for s, k, key, tid, x in H.events:
+        first.setdefault((k, key), s)
+        last[(k, key)] = s
+    for n in exp.writes:
+        if rp.role[n] != "stored":
+            continue
+        nm = S.store_name[n]
+        w_end = last.get(("wr_end", nm))
+        for m in S.succs[n]:
+            if ir.nodes[m].kind != "call":
+                continue
+            st = first.get(("start", m))
+            if st is None:
+                continue
+            if w_end is None:
+                return f"n{m} started (seq {st}) although the rebuilt value of n{n}, which it depends on, was never written in this (failed) run"
+            if m in S.argsucc[n]:
+                if not any(w_end < s0 and s1 < st for _, s0, s1 in S.stores[n].reads_returned):
+                    return f"consumer n{m} started (seq {st}) before the rebuilt value of n{n} was written (write end seq {w_end}) and read back"
+            elif st < w_end:
+                return f"plain dependent n{m} started (seq {st}) before the rebuilt value of n{n} was written (seq {w_end})"
+        r_start = first.get(("rd", nm))
+        if r_start is not None and (w_end is None or r_start < w_end):
+            return f"store s{n} was read (seq {r_start}) although/before its rebuilt value was written (write end seq {w_end}) in this (failed) run"
+    return None
+
+
 def c09_check(S, exp, out_ids, result):
     """Write, then read back, before downstream use; consumers receive the store's read value (identity)."""
     H, ir, rp = S.H, S.ir, S.rp
@@ -383,6 +416,12 @@ def _run_history(desc, props=("C03", "C05", "C09")):
                     if d:
                         problems.append(("C03", f"step {si}: a run in which {f.fired} raised ({f.kind}) nevertheless returned normally, and {d}", si))
                     break
+                if "C09" in props:
+                    d = c09_check_failed_run(S, exp)
+                    stats["c09_failed_runs_checked"] += 1
+                    if d:
+                        problems.append(("C09", f"step {si}: [faulted run, max_errors={me}, fault {f.fired}] {d}", si))
+                        break
                 last_ok = False
                 continue
         else:
